@@ -314,7 +314,9 @@ func strs(maxLen int) []string {
 		}
 	}
 	rec("", 0)
-	return append(out, "%20", "%u0041", "a%2", "\"}", "{\"", "100%", "a\"b", "a b", "é")
+	return append(out, "%20", "%u0041", "a%2", "\"}", "{\"", "100%", "a\"b", "a b", "é",
+		// comment and statement delimiters of the generated language
+		"*/", "/*", "a */ b", "x */ \"0.0.0.0\"/0; /* y", "//", "/* c */", "a // b", "*/ }", "\r", "a\rb", "\t")
 }
 
 func base() Case {
@@ -375,6 +377,10 @@ func charClass(v string) string {
 			add("semicolon")
 		case ' ':
 			add("space")
+		case '*', '/':
+			add("comment-delimiter")
+		case '\r', '\t':
+			add("control")
 		default:
 			if r > 127 {
 				add("non-ascii")
@@ -833,7 +839,7 @@ func init() {
 	engine.Register(engine.Spec[Case]{
 		ID:    "C20",
 		Level: "exploration",
-		Rule: "resource sets fed through three entry paths (a stub snippet.Fetcher, the real remote.FastlyApiFetcher whose HTTP client is answered by a fake Fastly API built from the case, and a generated Terraform plan JSON through terraform.ParseStdin; plans with two services are generated one service after the other on one fetcher, in both orders): every string of length <= 2 (quick) / 3 (thorough) over the 12-symbol alphabet {a \" % 2 0 { } newline # \\ space ;} plus URL-encoded and quote/brace specials placed in turn in every free-text field (dictionary key, dictionary value, ACL comment, backend address, response content, response content type), every pair of fields with every pair of strings of length <= 1 (thorough: 2), every 1-2 character insertion of -, ., space, é at every position of a backend name (also as director member) and of a director name, and structures (0/1/3 items, IPv4/IPv6 entries x negated x 6 masks, directors with 0-2 members x 3 types x retries absent/0/5, two of each, nothing, 4 Terraform module layouts with items / the service in child and grandchild modules, backend names that differ only in the length of a run of non-identifier characters). Oracle: generation does not crash or refuse, every generated item parses, and the parsed tables / acls / backends / directors / response objects have exactly the key, value, address, mask, negation, membership and content of the resources; a director member must name the backend as it is declared. non-trivial = every case; distinct = distinct (path, resources)",
+		Rule: "resource sets fed through three entry paths (a stub snippet.Fetcher, the real remote.FastlyApiFetcher whose HTTP client is answered by a fake Fastly API built from the case, and a generated Terraform plan JSON through terraform.ParseStdin; plans with two services are generated one service after the other on one fetcher, in both orders): every string of length <= 2 (quick) / 3 (thorough) over the 12-symbol alphabet {a \" % 2 0 { } newline # \\ space ;} plus URL-encoded, quote/brace and comment-delimiter (*/ /* // CR TAB) specials placed in turn in every free-text field (dictionary key, dictionary value, ACL comment, backend address, response content, response content type), every pair of fields with every pair of strings of length <= 1 (thorough: 2), every 1-2 character insertion of -, ., space, é at every position of a backend name (also as director member) and of a director name, and structures (0/1/3 items, IPv4/IPv6 entries x negated x 6 masks, directors with 0-2 members x 3 types x retries absent/0/5, two of each, nothing, 4 Terraform module layouts with items / the service in child and grandchild modules, backend names that differ only in the length of a run of non-identifier characters). Oracle: generation does not crash or refuse, every generated item parses, and the parsed tables / acls / backends / directors / response objects have exactly the key, value, address, mask, negation, membership and content of the resources; a director member must name the backend as it is declared. non-trivial = every case; distinct = distinct (path, resources)",
 		Gen:  gen20,
 		Key:  func(c Case) string { b, _ := json.Marshal(c); return string(b) },
 		Run:  run,
